@@ -6,8 +6,22 @@ use serde::{Deserialize, Serialize};
 
 /// A name as plain data: its non-root labels as byte strings, leftmost first.
 /// `N(vec![])` is the root.
-#[derive(Debug, Clone, PartialEq, Eq, Hash, PartialOrd, Ord, Serialize, Deserialize)]
+#[derive(Debug, Clone, PartialEq, Eq, Hash, PartialOrd, Ord)]
 pub struct N(pub Vec<Vec<u8>>);
+
+// In replay files a name is its escaped dotted text ("a.b\\032c.").
+impl Serialize for N {
+    fn serialize<S: serde::Serializer>(&self, s: S) -> Result<S::Ok, S::Error> {
+        s.serialize_str(&self.to_string())
+    }
+}
+
+impl<'de> Deserialize<'de> for N {
+    fn deserialize<D: serde::Deserializer<'de>>(d: D) -> Result<Self, D::Error> {
+        let s = String::deserialize(d)?;
+        Ok(N::parse_escaped(&s))
+    }
+}
 
 impl N {
     pub fn root() -> Self {
@@ -20,6 +34,35 @@ impl N {
             return N::root();
         }
         N(t.split('.').map(|l| l.as_bytes().to_vec()).collect())
+    }
+    /// Inverse of `Display`: labels separated by dots, `\\DDD` escapes.
+    pub fn parse_escaped(s: &str) -> Self {
+        let b = s.as_bytes();
+        let mut labels = Vec::new();
+        let mut cur = Vec::new();
+        let mut i = 0;
+        while i < b.len() {
+            if b[i] == b'\\' && i + 3 < b.len() + 0 && b[i + 1].is_ascii_digit() {
+                let v = (b[i + 1] - b'0') as u32 * 100 + (b[i + 2] - b'0') as u32 * 10 + (b[i + 3] - b'0') as u32;
+                cur.push(v as u8);
+                i += 4;
+            } else if b[i] == b'.' {
+                if !cur.is_empty() || i + 1 < b.len() {
+                    labels.push(std::mem::take(&mut cur));
+                }
+                i += 1;
+            } else {
+                cur.push(b[i]);
+                i += 1;
+            }
+        }
+        if !cur.is_empty() {
+            labels.push(cur);
+        }
+        if s == "." {
+            return N::root();
+        }
+        N(labels)
     }
     pub fn depth(&self) -> usize {
         self.0.len()
